@@ -1,0 +1,12 @@
+//go:build verif
+
+package logging
+
+// Contracts checked by /verif (govc). Comments only; see /verif/DESIGN.md.
+
+// SetJSONOutput redirects the package-level logger to stdout. It is the only writer of that variable;
+// its body is not verified (trusted), calls to it are recorded so that commands whose stdout matters can
+// assert that they never reach it.
+//@ func SetJSONOutput
+//@   property C19 C13
+//@   trusted
